@@ -34,6 +34,8 @@ def canonical(mods, modname, func):
     for name, t in trees.items():
         canon.canonicalise(t, name, set(), {}, [])
     canon.drop_dead_foreign(trees)
+    if func == "<module>":
+        return ast.unparse(trees[modname])
     for node in ast.walk(trees[modname]):
         if isinstance(node, (ast.FunctionDef, ast.AsyncFunctionDef)) and node.name == func:
             return ast.unparse(node)
@@ -146,6 +148,82 @@ case("star kept: the method has a default (the tuple could be shorter)", {"h": "
 # -- RETSPLIT / YIELDSPLIT ------------------------------------------------------------------------------------------------------
 case("return context distributed over a conditional with a literal operand", {"m": "def f(c, a, b):\n    return (a if c else b) & 255\n"}, "m", "f", has=["return a & 255", "return b & 255"])
 case("return context kept: the other operand is not a literal", {"m": "def f(c, a, b, g):\n    return (a if c else b) & g()\n"}, "m", "f", has=["& g()"], lacks=["return a & g()"])
+
+# -- SROA (local record objects) --------------------------------------------------------------------------------------------------
+_P = "class P(object):\n    def __init__(self, n):\n        self.data = bytearray()\n        self.left = n\n    def add(self, c):\n        self.data += c\n        self.left -= len(c)\n"
+case("sroa fires: local record object, methods inlined", {"h": _P, "m": "from .h import P\ndef f(r, n):\n    p = P(n)\n    while p.left > 0:\n        p.add(r(p.left))\n    return bytes(p.data)\n"}, "m", "f",
+     has=["_r_p_left"], lacks=["P(n)", "p.add"])
+case("sroa kept: the object escapes", {"h": _P, "m": "from .h import P\ndef f(r, n, g):\n    p = P(n)\n    g(p)\n    while p.left > 0:\n        p.data += r(p.left)\n    return bytes(p.data)\n"}, "m", "f",
+     has=["P(n)", "p.left"], lacks=["_r_p_left"])
+case("sroa kept: the class hooks attribute assignment", {"h": _P + "    def __setattr__(self, k, v):\n        object.__setattr__(self, k, v)\n", "m": "from .h import P\ndef f(r, n):\n    p = P(n)\n    while p.left > 0:\n        p.data += r(p.left)\n    return bytes(p.data)\n"}, "m", "f",
+     has=["P(n)", "p.left"], lacks=["_r_p_left"])
+case("sroa kept: a field is a property of the class", {"h": _P + "    @property\n    def size(self):\n        return len(self.data)\n", "m": "from .h import P\ndef f(r, n):\n    p = P(n)\n    while p.left > 0:\n        p.data += r(p.left)\n    return bytes(p.data)\n"}, "m", "f",
+     has=["P(n)", "p.left"], lacks=["_r_p_left"])
+case("sroa kept: the local is bound twice", {"h": _P, "m": "from .h import P\ndef f(r, n, q):\n    p = P(n)\n    if q:\n        p = q\n    while p.left > 0:\n        p.data += r(p.left)\n    return bytes(p.data)\n"}, "m", "f",
+     has=["P(n)", "p.left"], lacks=["_r_p_left"])
+case("sroa kept: the name P is not the record class here", {"h": _P, "m": "from .other import P\ndef f(r, n):\n    p = P(n)\n    while p.left > 0:\n        p.data += r(p.left)\n    return bytes(p.data)\n"}, "m", "f",
+     has=["P(n)", "p.left"], lacks=["_r_p_left"])
+case("sroa kept: the constructor does more than bind fields", {"h": "class P(object):\n    def __init__(self, n, log):\n        self.data = bytearray()\n        self.left = n\n        log(self)\n", "m": "from .h import P\ndef f(r, n, g):\n    p = P(n, g)\n    while p.left > 0:\n        p.data += r(p.left)\n    return bytes(p.data)\n"}, "m", "f",
+     has=["P(n, g)", "p.left"], lacks=["_r_p_left"])
+
+# -- PROP (pure properties) --------------------------------------------------------------------------------------------------------
+_I = "class I(object):\n    def __init__(self, a, b):\n        self.a = a\n        self.b = b\n    @property\n    def pair(self):\n        return self.a, self.b\n"
+case("prop fires: a pure property read through a parameter, starred into a call", {"h": _I, "m": "def f(i, g):\n    return g(1, *i.pair)\n"}, "m", "f", has=["g(1, i.a, i.b)"], lacks=["pair"])
+case("prop kept: the name is also assigned as a plain attribute somewhere", {"h": _I, "m": "def f(i, g):\n    return g(1, *i.pair)\ndef h(o):\n    o.pair = (1, 2)\n"}, "m", "f", has=["i.pair"])
+case("prop kept: a second definition of the name exists", {"h": _I + "class J(object):\n    def pair(self):\n        return (0, 0)\n", "m": "def f(i, g):\n    return g(1, *i.pair)\n"}, "m", "f", has=["i.pair"])
+case("prop kept: the property calls a method", {"h": _I.replace("return self.a, self.b", "return self.a, self.get()"), "m": "def f(i, g):\n    return g(1, *i.pair)\n"}, "m", "f", has=["i.pair"])
+case("prop kept: the receiver is a call (would be evaluated twice)", {"h": _I, "m": "def f(mk, g):\n    return g(1, *mk().pair)\n"}, "m", "f", has=["mk().pair"])
+
+# -- IFFLAG -----------------------------------------------------------------------------------------------------------------------
+case("ifflag fires: a literal flag set at the end of both arms, tested straight away", {"m": "def f(c, a, b, x, s):\n    if c:\n        a()\n        v = True\n    else:\n        b()\n        v = False\n    if v and x:\n        return s()\n    return 0\n"}, "m", "f",
+     has=["a()\n        if x:"], lacks=["v ="])
+case("ifflag kept: the flag is read again later", {"m": "def f(c, a, b, x, s):\n    if c:\n        a()\n        v = True\n    else:\n        b()\n        v = False\n    if v and x:\n        return s()\n    return v\n"}, "m", "f", has=["v = True", "v = False"])
+case("ifflag kept: one arm computes the flag", {"m": "def f(c, a, b, x, s):\n    if c:\n        v = a()\n    else:\n        b()\n        v = False\n    if v and x:\n        return s()\n    return 0\n"}, "m", "f", has=["v = a()", "if v and x"])
+case("ifflag kept: a statement sits between the arms and the test", {"m": "def f(c, a, b, x, s):\n    if c:\n        a()\n        v = True\n    else:\n        b()\n        v = False\n    x = s()\n    if v and x:\n        return 1\n    return 0\n"}, "m", "f", has=["v = True"])
+
+# -- inlining a helper whose returns sit in a try statement ----------------------------------------------------------------------------
+case("try-tail fires: handler returns, statements after the try become its else-block",
+     {"m": "class A(object):\n    def _h(self, cb, x):\n        if not cb:\n            return False\n        try:\n            cb(x)\n        except Exception:\n            return False\n        return True\n    def f(self, cb, x):\n        self._h(cb, x)\n        return x\n"},
+     "m", "f", has=["try:\n            cb(x)", "except Exception:"], lacks=["_h("])
+case("try-tail kept: a handler falls through to the statements after the try",
+     {"m": "class A(object):\n    def _h(self, cb, x, g):\n        try:\n            cb(x)\n        except Exception:\n            g()\n        return g()\n    def f(self, cb, x, g):\n        v = self._h(cb, x, g)\n        return v\n"},
+     "m", "f", has=["g()"])
+case("try-tail kept: finally between the return and the rest",
+     {"m": "class A(object):\n    def _h(self, cb, x, g):\n        try:\n            cb(x)\n        except Exception:\n            return 0\n        finally:\n            g()\n        return x\n    def f(self, cb, x, g):\n        self._h(cb, x, g)\n        return g\n"},
+     "m", "f", has=["_h("])
+
+case("raise of a conditional expression is split", {"m": "def f(c, A, B):\n    raise A(1) if c else B(2)\n"}, "m", "f", has=["raise A(1)", "raise B(2)"], lacks=[" else "])
+
+case("a non-None package constant compared with None folds", {"constants": "LIST = b'LIST'\n", "m": "from . import constants\ndef f(g):\n    if constants.LIST is not None:\n        g()\n    return 0\n"}, "m", "f", has=["g()"], lacks=["is not None"])
+case("a package constant bound to None does not fold", {"constants": "LIST = None\n", "m": "from . import constants\ndef f(g):\n    if constants.LIST is not None:\n        g()\n    return 0\n"}, "m", "f", has=["is not None"])
+
+case("a statement helper called in a while-test is inlined through `while True: if not ..: break`",
+     {"m": "class A(object):\n    def _h(self, r, b):\n        c, d = r()\n        if c == 1:\n            return True\n        b.append(d)\n        return False\n    def f(self, r, b, t):\n        while not self._h(r, b):\n            t()\n        return b\n"},
+     "m", "f", has=["while True", "b.append("], lacks=["_h("])
+
+# -- static methods called through the class; module-level literals of the helper's module ------------------------------------------------
+_S = "WRAP = 2**32\nclass K(object):\n    @staticmethod\n    def nxt(i):\n        j = i + 1\n        if j == WRAP:\n            return 1\n        return j\n"
+case("static method through the class name is inlined, carrying its module's literal", {"h": _S, "m": "from .h import K\nclass A(object):\n    def f(self):\n        self.n = K.nxt(self.n)\n        return self.n\n"}, "m", "f",
+     has=["2 ** 32"], lacks=["K.nxt"])
+case("static method kept: the module constant is bound twice", {"h": _S + "WRAP = 5\n", "m": "from .h import K\nclass A(object):\n    def f(self):\n        self.n = K.nxt(self.n)\n        return self.n\n"}, "m", "f",
+     has=["K.nxt"])
+case("static method kept: K is another binding in the calling module", {"h": _S, "m": "from .other import K\nclass A(object):\n    def f(self):\n        self.n = K.nxt(self.n)\n        return self.n\n"}, "m", "f",
+     has=["K.nxt"])
+
+# -- module-level helper calls --------------------------------------------------------------------------------------------------------------
+_M = "import reg\nclass Acc(object):\n    pass\ndef _register(name, base, h=Acc):\n    reg.M[name] = h\n    reg.A[name] = reg.A[base]\n    return name\n"
+case("module-level helper call is inlined, copies forwarded", {"m": _M + "_N = _register('x', 'y')\ndef f():\n    return _N\n"}, "m", "<module>", has=["reg.M['x'] = Acc", "reg.A['x'] = reg.A['y']", "_N = 'x'"], lacks=["_register("])
+case("module-level helper call kept: the helper is called from a function too, where its default may differ... (still inlined there, def kept)", {"m": _M + "_N = _register('x', 'y')\ndef f():\n    return _register\n"}, "m", "<module>", has=["def _register(", "reg.M['x'] = Acc"])
+case("static-default kept: the default name is rebound in the module", {"m": _M + "Acc = None\n_N = _register('x', 'y')\nclass A(object):\n    def f(self):\n        return _register('p', 'q')\n"}, "m", "f", has=["_register('p', 'q')"])
+
+# -- LISTBUILD ---------------------------------------------------------------------------------------------------------------------------------
+case("listbuild fires: display plus appends, then starred into a call", {"m": "def f(g, a, b, c):\n    v = [a]\n    v.append(g(b))\n    v.append(c)\n    return g(*v)\n"}, "m", "f", has=["g(a, "], lacks=["append"])
+case("listbuild kept: the list is read between two appends", {"m": "def f(g, a, b, c):\n    v = [a]\n    v.append(g(v))\n    v.append(c)\n    return g(*v)\n"}, "m", "f", has=["append"])
+case("listbuild kept: an append under a condition", {"m": "def f(g, a, b, c):\n    v = [a]\n    if b:\n        v.append(b)\n    v.append(c)\n    return g(*v)\n"}, "m", "f", has=["append"])
+case("listbuild kept: the list escapes before the last append", {"m": "def f(g, a, b, c):\n    v = [a]\n    g(v)\n    v.append(c)\n    return g(*v)\n"}, "m", "f", has=["append"])
+
+case("lencomp fires: counting a filtered list", {"m": "def f(d):\n    return len([q for r in d.values() for q in r.values() if not q.empty()])\n"}, "m", "f", has=["sum((1 for r in"], lacks=["len("])
+case("lencomp kept: the element is a call", {"m": "def f(d, g):\n    return len([g(q) for q in d])\n"}, "m", "f", has=["len("])
 
 
 def main():
